@@ -5,6 +5,7 @@ import Mathlib.Tactic.Ring
 import Mathlib.Tactic.Linarith
 import Mathlib.Tactic.FieldSimp
 import Mathlib.Tactic.NormNum
+import Mathlib.Tactic.Positivity
 /-! Real-number lemmas about the cell-level hydro update (C04). -/
 namespace CMacVerif.HydroUpdate
 open CMacVerif CMacVerif.RiemannVacuum
@@ -206,5 +207,206 @@ theorem reconstruct_reflective (i : Axis) (W g : Q ℝ) (dx : ℝ) (hd : 0 ≤ W
     simp only [reflectiveRight, reconstruct, flip, V3'.set, V3'.get, limit_self, neg_neg,
       amax_zero_of_nonneg hd, amax_zero_of_nonneg hp, true_and, V3.mk.injEq, and_true]
   all_goals exact limit_mirror _ _ _
+
+/-! ### `Hydro::limit`: where the face value can lie -/
+
+theorem phiminusR_le (a δ : ℝ) (hδ : 0 ≤ δ) : phiminusR a δ ≤ a := by
+  unfold phiminusR
+  split_ifs with h
+  · linarith
+  · have ha : 0 ≤ a := by
+      by_contra hn
+      push Not at hn
+      exact h (mul_pos_of_neg_of_neg (by linarith) hn)
+    rcases eq_or_lt_of_le ha with h0 | hpos
+    · rw [← h0]; simp
+    · rw [abs_of_pos hpos, add_zero, div_le_iff₀ (by linarith)]
+      nlinarith
+
+theorem phiminusR_nonneg (a δ : ℝ) (ha : 0 ≤ a) (hδ : 0 ≤ δ) : 0 ≤ phiminusR a δ := by
+  unfold phiminusR
+  split_ifs with h
+  · by_contra hn
+    push Not at hn
+    have : (a - δ) * a ≤ 0 := mul_nonpos_of_nonpos_of_nonneg hn.le ha
+    linarith
+  · exact div_nonneg (mul_nonneg ha (abs_nonneg a)) (by positivity)
+
+theorem le_phiplusR (a δ : ℝ) (hδ : 0 ≤ δ) : a ≤ phiplusR a δ := by
+  have h := phiminusR_le (-a) δ hδ
+  rw [phiminusR_neg] at h
+  linarith
+
+/-- **limit_between (left value below the right one).**  For `a < b` the face value returned
+for the cell with value `a` is the reconstructed value `m` clipped to the interval
+`[phiminus, a + ¾ (b − a)]`: it never passes three quarters of the way to the other cell, it may
+undershoot the own cell value down to `phiminus ≤ a` (`a − ½(b − a)`, or a damped value with the
+sign of `a` when that would change sign), and it is `m` itself whenever `m` lies in between. -/
+theorem limit_between_lt (m a b : ℝ) (hab : a < b) :
+    phiminusR a (1 / 2 * (b - a)) ≤ limit 0 m a b 0.5 ∧
+      limit 0 m a b 0.5 ≤ a + 3 / 4 * (b - a) ∧
+      phiminusR a (1 / 2 * (b - a)) ≤ a ∧
+      (phiminusR a (1 / 2 * (b - a)) ≤ m → m ≤ a + 3 / 4 * (b - a) → limit 0 m a b 0.5 = m) := by
+  have habs : |a - b| = b - a := by rw [abs_sub_comm, abs_of_pos (by linarith)]
+  have hlow := phiminusR_le a (1 / 2 * (b - a)) (by linarith)
+  rw [limit_unfold, if_neg hab.ne, if_pos hab, min_eq_left hab.le, habs, lit05]
+  have e : a + 1 / 2 * (b - a) + 1 / 4 * (b - a) = a + 3 / 4 * (b - a) := by ring
+  rw [e]
+  refine ⟨le_max_left _ _, max_le (by linarith) (min_le_left _ _), hlow, fun h1 h2 => ?_⟩
+  rw [min_eq_right h2, max_eq_right h1]
+
+/-- **limit_between (left value above the right one)** -/
+theorem limit_between_gt (m a b : ℝ) (hab : b < a) :
+    a - 3 / 4 * (a - b) ≤ limit 0 m a b 0.5 ∧
+      limit 0 m a b 0.5 ≤ phiplusR a (1 / 2 * (a - b)) ∧
+      a ≤ phiplusR a (1 / 2 * (a - b)) ∧
+      (a - 3 / 4 * (a - b) ≤ m → m ≤ phiplusR a (1 / 2 * (a - b)) → limit 0 m a b 0.5 = m) := by
+  have habs : |a - b| = a - b := abs_of_pos (by linarith)
+  have hup := le_phiplusR a (1 / 2 * (a - b)) (by linarith)
+  rw [limit_unfold, if_neg hab.ne', if_neg (not_lt.mpr hab.le), max_eq_left hab.le, habs, lit05]
+  have e : a + 1 / 2 * (b - a) - 1 / 4 * (a - b) = a - 3 / 4 * (a - b) := by ring
+  rw [e]
+  refine ⟨le_min (by linarith) (le_max_left _ _), min_le_left _ _, hup, fun h1 h2 => ?_⟩
+  rw [max_eq_right h1, min_eq_right h2]
+
+/-- **non-negative cell values give a non-negative face value**, whatever the reconstructed value
+(so the clamps `std::max(rho, 0.)`, `std::max(P, 0.)` after `limit` never act in exact arithmetic) -/
+theorem limit_nonneg (m a b : ℝ) (ha : 0 ≤ a) (hb : 0 ≤ b) : 0 ≤ limit 0 m a b 0.5 := by
+  rcases lt_trichotomy a b with h | h | h
+  · exact (phiminusR_nonneg a _ ha (by linarith)).trans (limit_between_lt m a b h).1
+  · rw [h, limit_self]; exact hb
+  · exact le_trans (by nlinarith) (limit_between_gt m a b h).1
+
+/-- the states handed to the Riemann solver have non-negative density and pressure (clamps), and
+for non-negative cell values the clamps are not even needed -/
+theorem face_density_pressure_nonneg (tiny : ℝ) (WL gL WR gR : Q ℝ) (dx : ℝ) :
+    0 ≤ (reconstruct tiny WL gL WR gR dx).rhoL ∧ 0 ≤ (reconstruct tiny WL gL WR gR dx).PL ∧
+      0 ≤ (reconstruct tiny WL gL WR gR dx).rhoR ∧ 0 ≤ (reconstruct tiny WL gL WR gR dx).PR := by
+  simp only [reconstruct]
+  exact ⟨amax_zero_nonneg _, amax_zero_nonneg _, amax_zero_nonneg _, amax_zero_nonneg _⟩
+
+theorem face_clamp_inactive (WL gL WR gR : Q ℝ) (dx : ℝ) (h1 : 0 ≤ WL.d) (h2 : 0 ≤ WL.e)
+    (h3 : 0 ≤ WR.d) (h4 : 0 ≤ WR.e) :
+    (reconstruct 0 WL gL WR gR dx).rhoL = limit 0 (WL.d + 0.5 * dx * gL.d) WL.d WR.d 0.5 ∧
+      (reconstruct 0 WL gL WR gR dx).PL = limit 0 (WL.e + 0.5 * dx * gL.e) WL.e WR.e 0.5 ∧
+      (reconstruct 0 WL gL WR gR dx).rhoR = limit 0 (WR.d - 0.5 * dx * gR.d) WR.d WL.d 0.5 ∧
+      (reconstruct 0 WL gL WR gR dx).PR = limit 0 (WR.e - 0.5 * dx * gR.e) WR.e WL.e 0.5 := by
+  simp only [reconstruct]
+  exact ⟨amax_zero_of_nonneg (limit_nonneg _ _ _ h1 h3), amax_zero_of_nonneg (limit_nonneg _ _ _ h2 h4),
+    amax_zero_of_nonneg (limit_nonneg _ _ _ h3 h1), amax_zero_of_nonneg (limit_nonneg _ _ _ h4 h2)⟩
+
+/-! ### `Hydro::apply_slope_limiter` -/
+
+/-- the largest extrapolation `|grad_k · dx_k / 2|` of a variable to the six faces -/
+noncomputable def maxExt (g dx : V3 ℝ) : ℝ :=
+  max (max |g.x * 0.5 * dx.x| |g.y * 0.5 * dx.y|) |g.z * 0.5 * dx.z|
+
+theorem max_pm (W e : ℝ) : max (W + e) (W - e) = W + |e| := by
+  rcases le_total 0 e with h | h
+  · rw [abs_of_nonneg h, max_eq_left (by linarith)]
+  · rw [abs_of_nonpos h, max_eq_right (by linarith)]; ring
+
+theorem min_pm (W e : ℝ) : min (W + e) (W - e) = W - |e| := by
+  rcases le_total 0 e with h | h
+  · rw [abs_of_nonneg h, min_eq_right (by linarith)]
+  · rw [abs_of_nonpos h, min_eq_left (by linarith)]; ring
+
+theorem max_chain (W A e : ℝ) : max (max (W + A) (W + e)) (W - e) = W + max A |e| := by
+  rw [max_assoc, max_pm, max_add_add_left]
+
+theorem min_chain (W A e : ℝ) : min (min (W - A) (W + e)) (W - e) = W - max A |e| := by
+  rw [min_assoc, min_pm, sub_eq_add_neg, sub_eq_add_neg, min_add_add_left, min_neg_neg,
+    ← sub_eq_add_neg]
+
+/-- `alpha` in closed form: with `E` the largest extrapolation,
+`alpha = min(1, ½ min((hi − W)/E, (W − lo)/E))` (`DBL_MAX` instead of a quotient when `E = 0`) -/
+theorem slopeAlpha_eq (dmax W : ℝ) (g : V3 ℝ) (lo hi : ℝ) (dx : V3 ℝ) :
+    slopeAlpha dmax W g lo hi dx =
+      min 1 (1 / 2 * min (if maxExt g dx = 0 then dmax else (hi - W) / maxExt g dx)
+        (if maxExt g dx = 0 then dmax else (lo - W) / (-maxExt g dx))) := by
+  have hfeq : ∀ x : ℝ, (feq x 0.0 = true) ↔ x = 0 := by
+    intro x
+    simp only [feq, lit0, Bool.and_eq_true, decide_eq_true_eq]
+    exact ⟨fun h => le_antisymm h.1 h.2, fun h => by rw [h]; exact ⟨le_refl 0, le_refl 0⟩⟩
+  simp only [slopeAlpha, slopeAlphaTag, amax_real, amin_real, max_pm, min_pm, max_chain, min_chain,
+    hfeq, lit1, lit05]
+  have e1 : W + max (max |g.x * (1 / 2) * dx.x| |g.y * (1 / 2) * dx.y|) |g.z * (1 / 2) * dx.z| - W
+      = maxExt g dx := by unfold maxExt; rw [lit05]; ring
+  have e2 : W - max (max |g.x * (1 / 2) * dx.x| |g.y * (1 / 2) * dx.y|) |g.z * (1 / 2) * dx.z| - W
+      = -maxExt g dx := by unfold maxExt; rw [lit05]; ring
+  rw [e1, e2]
+  simp only [neg_eq_zero]
+
+theorem maxExt_nonneg (g dx : V3 ℝ) : 0 ≤ maxExt g dx :=
+  le_trans (abs_nonneg _) (le_max_right _ _)
+
+/-- the heart of the slope limiter: `|alpha| · E ≤ ½ min(|hi − W|, |W − lo|)` when the neighbour
+minimum is not above the neighbour maximum -/
+theorem slopeAlpha_mul_maxExt (dmax W : ℝ) (g : V3 ℝ) (lo hi : ℝ) (dx : V3 ℝ) (hlh : lo ≤ hi) :
+    |slopeAlpha dmax W g lo hi dx| * maxExt g dx ≤ 1 / 2 * min |hi - W| |W - lo| := by
+  have hE := maxExt_nonneg g dx
+  have hb : 0 ≤ 1 / 2 * min |hi - W| |W - lo| := by positivity
+  rcases eq_or_lt_of_le hE with h0 | hpos
+  · rw [← h0, mul_zero]; exact hb
+  · rw [slopeAlpha_eq, if_neg hpos.ne', if_neg hpos.ne']
+    set E := maxExt g dx with hEdef
+    have e2 : (lo - W) / -E = (W - lo) / E := by rw [div_neg, ← neg_div]; ring_nf
+    rw [e2, min_div_div_right hpos.le]
+    set m := min (hi - W) (W - lo) with hm
+    by_cases hm0 : 0 ≤ m
+    · have h1 : 0 ≤ hi - W := le_trans hm0 (min_le_left _ _)
+      have h2 : 0 ≤ W - lo := le_trans hm0 (min_le_right _ _)
+      have hq : 0 ≤ 1 / 2 * (m / E) := by positivity
+      rw [abs_of_nonneg (le_min zero_le_one hq), abs_of_nonneg h1, abs_of_nonneg h2, ← hm]
+      calc min 1 (1 / 2 * (m / E)) * E ≤ 1 / 2 * (m / E) * E :=
+            mul_le_mul_of_nonneg_right (min_le_right _ _) hpos.le
+        _ = 1 / 2 * m := by field_simp
+    · push Not at hm0
+      have hq : 1 / 2 * (m / E) < 0 := by
+        have : m / E < 0 := div_neg_of_neg_of_pos hm0 hpos
+        linarith
+      rw [min_eq_right (by linarith), abs_of_neg hq]
+      have hE' : -(1 / 2 * (m / E)) * E = 1 / 2 * -m := by field_simp
+      rw [hE']
+      have hmle : -m ≤ min |hi - W| |W - lo| := by
+        rcases min_choice (hi - W) (W - lo) with hc | hc
+        · have ha : hi - W < 0 := by rw [← hc]; exact hm0
+          have : m = hi - W := hc
+          rw [this]
+          exact le_min (by rw [abs_of_neg ha]) (by rw [abs_of_nonneg (by linarith)]; linarith)
+        · have ha : W - lo < 0 := by rw [← hc]; exact hm0
+          have : m = W - lo := hc
+          rw [this]
+          exact le_min (by rw [abs_of_nonneg (by linarith)]; linarith) (by rw [abs_of_neg ha])
+      linarith
+
+/-- one extrapolation of the limited gradient -/
+theorem limited_ext_le (dmax W : ℝ) (g : V3 ℝ) (lo hi : ℝ) (dx : V3 ℝ) (hlh : lo ≤ hi)
+    (gk dxk : ℝ) (hk : |gk * 0.5 * dxk| ≤ maxExt g dx) :
+    |gk * slopeAlpha dmax W g lo hi dx * 0.5 * dxk| ≤ 1 / 2 * min |hi - W| |W - lo| := by
+  have e : gk * slopeAlpha dmax W g lo hi dx * 0.5 * dxk
+      = slopeAlpha dmax W g lo hi dx * (gk * 0.5 * dxk) := by ring
+  rw [e, abs_mul]
+  exact le_trans (mul_le_mul_of_nonneg_left hk (abs_nonneg _))
+    (slopeAlpha_mul_maxExt dmax W g lo hi dx hlh)
+
+/-- all three extrapolations of one limited variable -/
+theorem limited_var_bound (dmax W : ℝ) (g : V3 ℝ) (lo hi : ℝ) (dx : V3 ℝ) (hlh : lo ≤ hi) :
+    let g' := g.smul (slopeAlpha dmax W g lo hi dx)
+    |g'.x * 0.5 * dx.x| ≤ 1 / 2 * min |hi - W| |W - lo| ∧
+      |g'.y * 0.5 * dx.y| ≤ 1 / 2 * min |hi - W| |W - lo| ∧
+      |g'.z * 0.5 * dx.z| ≤ 1 / 2 * min |hi - W| |W - lo| := by
+  simp only [V3.smul]
+  exact ⟨limited_ext_le dmax W g lo hi dx hlh g.x dx.x (le_trans (le_max_left _ _) (le_max_left _ _)),
+    limited_ext_le dmax W g lo hi dx hlh g.y dx.y (le_trans (le_max_right _ _) (le_max_left _ _)),
+    limited_ext_le dmax W g lo hi dx hlh g.z dx.z (le_max_right _ _)⟩
+
+/-! ### `Hydro::predict_primitive_variables` -/
+
+theorem predictPrimitive_nonneg (g ovf : ℝ) (W : Q ℝ) (G : Grad ℝ) (a : V3 ℝ) (dt : ℝ)
+    (hd : 0 ≤ W.d) (hp : 0 ≤ W.e) :
+    0 ≤ (predictPrimitive g ovf W G a dt).d ∧ 0 ≤ (predictPrimitive g ovf W G a dt).e := by
+  simp only [predictPrimitive, predictPrimitiveTag]
+  split_ifs <;> first | exact ⟨hd, hp⟩ | exact ⟨amax_zero_nonneg _, amax_zero_nonneg _⟩
 
 end CMacVerif.HydroUpdate
